@@ -56,14 +56,14 @@ def cases(ctx):
                             i += 1
                             if ctx.mine(i):
                                 yield {'tool': tool, 'a': a, 'b': b, 'fin': fin, 'fout': fout, 'salt': rng.randint(0, 10 ** 9),
-                                       'entry': ('function', 'cli_run')[(rep + i) % 2]}
+                                       'entry': ('function', 'cli_run', 'parser')[(rep + i) % 3]}
         for direction in ('ebcdic', 'ascii'):
             for blocked in (True, False):
                 for tool in ('mideu convert', 'paramconv'):
                     i += 1
                     if ctx.mine(i):
                         yield {'tool': tool, 'direction': direction, 'blocked': blocked, 'salt': rng.randint(0, 10 ** 9),
-                               'entry': ('function', 'cli_run')[(rep + i) % 2]}
+                               'entry': ('function', 'cli_run', 'parser')[(rep + i) % 3]}
     # inputs of more than 1 MiB (buffering thresholds) and the tools' documented default arguments
     for tool in ('mci_ipm_encode', 'mci_ipm_param_encode', 'mideu convert', 'paramconv'):
         i += 1
@@ -74,6 +74,13 @@ def cases(ctx):
             else:
                 c.update(a='cp500', b='latin_1', fin='1014', fout='1014')
             yield c
+    # output name left to the tool (documented: input name + '.out'), input names with and without extensions
+    for tool in ('mci_ipm_encode', 'mci_ipm_param_encode'):
+        for ext in ('', '.ipm', '.out', '.bin.out'):
+            i += 1
+            if ctx.mine(i):
+                yield {'tool': tool, 'a': 'latin_1', 'b': 'cp500', 'fin': '1014', 'fout': 'vbs', 'entry': 'cli_run', 'salt': rng.randint(0, 10 ** 9),
+                       'derived_output': True, 'ext': ext}
     for entry in ('function', 'cli_run'):
         for rep in range(2 if quick else 10):
             i += 1
@@ -133,6 +140,11 @@ def run_tool(ctx, case, tool, data, a, b, fin, fout, tag):
     entry = case['entry']
     src = os.path.join(ctx.tmpdir, 'in_%s.bin' % tag)
     dst = os.path.join(ctx.tmpdir, 'out_%s.bin' % tag)
+    if case.get('derived_output') and tag == 'fwd':
+        src = os.path.join(ctx.tmpdir, 'named_in' + case['ext'])
+        dst = src + '.out'
+        if os.path.exists(dst):
+            os.unlink(dst)
 
     def body():
         if tool in ('mci_ipm_encode', 'mci_ipm_param_encode'):
@@ -148,7 +160,18 @@ def run_tool(ctx, case, tool, data, a, b, fin, fout, tag):
                 return out.getvalue()
             with open(src, 'wb') as f:
                 f.write(data)
-            if use_defaults:
+            if case.get('derived_output') and tag == 'fwd':
+                mod.cli_run(in_filename=src, in_encoding=a, out_encoding=b, in_format=fin, out_format=fout, no1014blocking=False, debug=False)
+                with open(src, 'rb') as f:
+                    if f.read() != data:
+                        raise RuntimeError('the tool modified its input file %s' % os.path.basename(src))
+            elif entry == 'parser':
+                # through the tool's own argument parser, the way the console script runs; --no1014blocking is the documented
+                # shorthand for vbs in and out
+                argv = [src, '-o', dst, '--in-encoding', a, '--out-encoding', b]
+                argv += ['--no1014blocking'] if (fin, fout) == ('vbs', 'vbs') else ['--in-format', fin, '--out-format', fout]
+                mod.cli_run(**vars(mod.cli_parser().parse_args(argv)))
+            elif use_defaults:
                 mod.cli_run(in_filename=src, out_filename=dst)
             else:
                 mod.cli_run(in_filename=src, out_filename=dst, in_encoding=a, out_encoding=b, in_format=fin, out_format=fout,
@@ -159,6 +182,14 @@ def run_tool(ctx, case, tool, data, a, b, fin, fout, tag):
         sourceformat = 'ebcdic' if a == 'cp500' else 'ascii'
         with open(src, 'wb') as f:
             f.write(data)
+        if entry == 'parser' and tool == 'mideu convert':
+            ctx.t_mideu.cli_entry(['convert', src, '-s', sourceformat] + ([] if blocked else ['--no1014blocking']))
+            with open(src + '.out', 'rb') as f:
+                return f.read()
+        if entry == 'parser' and tool == 'paramconv':
+            ctx.t_paramconv.cli_entry([src, '-o', dst, '-s', sourceformat] + ([] if blocked else ['--no1014blocking']))
+            with open(dst, 'rb') as f:
+                return f.read()
         if tool == 'mideu convert':
             if entry == 'function':
                 ctx.t_mideu.convert(config={}, input=src, sourceformat=sourceformat, no1014blocking=not blocked)
@@ -292,7 +323,7 @@ def require(m):
     reasons = []
     te = set(m['classes'].get('tools/entries', ()))
     for tool in ('mci_ipm_encode', 'mci_ipm_param_encode', 'mideu convert', 'paramconv'):
-        for entry in ('function', 'cli_run'):
+        for entry in ('function', 'cli_run', 'parser'):
             if '%s/%s' % (tool, entry) not in te:
                 reasons.append('%s never run through %s' % (tool, entry))
     if not m['counters'].get('conversions of inputs over 1 MiB'):
